@@ -470,7 +470,7 @@ def run(ctx):
     sys.setswitchinterval(1e-5)
     combos = [(c, f) for c in SERVER_CELLS for f in FAMILIES]
     # 1. concurrent clients: every (server cell, family) in every run
-    reps = ctx.pick(1, 12)
+    reps = ctx.pick(1, 30)
     n = 0
     for rep in range(reps):
         for cell, fam in combos:
@@ -492,7 +492,7 @@ def run(ctx):
         idle_gap_workload(ctx, rng, inj, rng.choice(FAMILIES), pt)
     # 2. lifecycles
     n = 0
-    for rep in range(ctx.pick(1, 8)):
+    for rep in range(ctx.pick(1, 16)):
         for cell, fam in combos:
             for lc in LIFECYCLES:
                 n += 1
